@@ -601,13 +601,16 @@ class dir_archive(archive):
         return memo
     def _store(self, key, value, input=False):
         "store output (and possibly input) in a subdirectory"
-        _key = TEMP+hash(random(), 'md5')
+        # the temporary directory is not named like an entry (no PREFIX)
+        _temp = os.path.join(self.__state__['id'], TEMP+hash(random(), 'md5'))
         # create an input file when key is not suitable directory name
         if self._fname(key) != key: input=True #XXX: errors if protocol=0,1?
         # create a temporary directory, and dump the results
         try:
-            _file = os.path.join(self._mkdir(_key), self._file)
-            if input: _args = os.path.join(self._getdir(_key), self._args)
+            try: mkdir(_temp, mode=self.__state__['permissions'])
+            except OSError: pass # then directory already exists
+            _file = os.path.join(_temp, self._file)
+            if input: _args = os.path.join(_temp, self._args)
             if self.__state__['serialized']:
                 protocol = self.__state__['protocol']
                 if self.__state__['fast']:
@@ -644,10 +647,13 @@ class dir_archive(archive):
                         f.write(_b(memo))
         except OSError:
             "failed to populate directory for '%s'" % str(key)
+        except: # value cannot be stored: remove the temporary directory
+            rmtree(_temp, self=True, ignore_errors=True)
+            raise
         # move the results to the proper place
         try: #XXX: possible permissions issues here
             self._rmdir(key) #XXX: 'key' must be a suitable dir name
-            os.renames(self._getdir(_key), self._getdir(key))
+            os.renames(_temp, self._getdir(key))
 #       except TypeError: #XXX: catch key that isn't converted to safe filename
 #           "error in populating directory for '%s'" % str(key)
         except OSError: #XXX: if rename fails, may need cleanup (_rmdir ?)
